@@ -10,6 +10,8 @@ mod plevel_ext;
 mod plevel_logic;
 mod plevel_global;
 mod lp;
+mod mlevel;
+mod fi;
 mod limits;
 mod gac;
 
@@ -40,6 +42,11 @@ fn main() {
         "ctx" => plevel::run_ctx,
         "view" => plevel::run_view,
         "lp" => lp::run_case,
+        "lower" => mlevel::run_lower,
+        "msolve" => mlevel::run_msolve,
+        "mspell" => mlevel::run_mspell,
+        "fi" => fi::run_fi,
+        "ctxf" => fi::run_ctxf,
         "limits" => limits::run_case,
         "gac" => gac::run_case,
         _ => {
